@@ -211,6 +211,12 @@ func makeInputs(variant int64) inputs {
 	}
 	in["treenexus"] = nexus(in["tree"])
 	in["treesnexus"] = nexus(in["trees"])
+	// a tie between two ancestral states at inner nodes: ACCTRAN, DELTRAN, DOWNPASS and NONE all give
+	// different reconstructions (on unambiguous data they coincide, and an option that silently runs
+	// another algorithm than the documented default would go unnoticed)
+	in["acrtree"] = "((((Tip0,Tip1),Tip2),(Tip3,Tip4)),(Tip5,(Tip6,Tip7)));\n"
+	in["acrstates"] = "Tip0,x\nTip1,y\nTip2,y\nTip3,x\nTip4,x\nTip5,x\nTip6,x\nTip7,x\n"
+	in["asralign"] = ">Tip0\nAC\n>Tip1\nCC\n>Tip2\nCC\n>Tip3\nAA\n>Tip4\nAA\n>Tip5\nAA\n>Tip6\nAC\n>Tip7\nAA\n"
 	in["zerolen"] = "((Tip0:0,Tip1:0.2)0.9:0,(Tip2:0.000001,Tip3:0.1)0.7:0.2,Tip4:0.3);\n"
 	in["tipfile"] = "Tip0\nTip1\nTip2\n"
 	in["tipfile2"] = "Tip3\nTip4\n"
@@ -314,6 +320,16 @@ func templates() []tmpl {
 		T("mutations-phylip", "compute mutations", "fullnamed", "-a", "{phylipnodes}", "-p"),
 		T("acr", "acr", "tree", "--states", "{states}"),
 		T("acr-deltran", "acr", "tree", "--states", "{states}", "--algo", "deltran"),
+		// enum-like option --algo: inputs on which every value gives another result
+		T("acr-tie", "acr", "acrtree", "--states", "{acrstates}"),
+		B("acr-tie", T("acr-tie-deltran", "acr", "acrtree", "--states", "{acrstates}", "--algo", "deltran")),
+		B("acr-tie-deltran", T("acr-tie-downpass", "acr", "acrtree", "--states", "{acrstates}", "--algo", "downpass")),
+		B("acr-tie-downpass", T("acr-tie-none", "acr", "acrtree", "--states", "{acrstates}", "--algo", "none")),
+		B("acr-tie-none", T("acr-tie-acctran", "acr", "acrtree", "--states", "{acrstates}", "--algo", "acctran")),
+		T("asr-tie", "asr", "acrtree", "-a", "{asralign}"),
+		B("asr-tie", T("asr-tie-deltran", "asr", "acrtree", "-a", "{asralign}", "--algo", "deltran")),
+		B("asr-tie-deltran", T("asr-tie-downpass", "asr", "acrtree", "-a", "{asralign}", "--algo", "downpass")),
+		B("asr-tie-downpass", T("asr-tie-acctran", "asr", "acrtree", "-a", "{asralign}", "--algo", "acctran")),
 		T("asr", "asr", "tree", "-a", "{fasta}"),
 		T("asr-phylip", "asr", "tree", "-a", "{phylip}", "-p"),
 		T("draw-text", "draw text", "tree"),
@@ -336,6 +352,7 @@ func templates() []tmpl {
 		T("ltt", "ltt", "rooted"),
 		T("matrix", "matrix", "tree"),
 		B("matrix", T("matrix-boot", "matrix", "tree", "-m", "boot")),
+		B("matrix-boot", T("matrix-none", "matrix", "tree", "-m", "none")),
 		T("matrix-avg", "matrix", "trees", "--avg"),
 		T("nni", "nni", "tree"),
 		T("prune-args", "prune", "tree", "Tip0", "Tip1"),
